@@ -5,7 +5,7 @@
              only its first k+1 digits.
      b85dec: every 5 digits are one word (an error when it does not fit 32 bits); a last group of
              k < 5 digits is padded with the digit 84 and keeps only its first k-1 bytes.
-   Round trip proved for byte strings whose length is a multiple of 4 (every SHA-256 digest). *)
+   Round trip proved for byte strings of any length. *)
 From Coq Require Import List NArith Bool Lia Arith.
 From SV Require Import lib.Bytes lib.KeySort.
 Import ListNotations.
@@ -139,6 +139,168 @@ Proof.
     pose proof (be_val_lt _ B4) as L4. exact L4.
 Qed.
 
+(* ---------- a last group of 1, 2 or 3 bytes ---------- *)
+Lemma firstn_be_bytes k : forall p n,
+  firstn k (be_bytes (k + p) n) = be_bytes k (n / 256 ^ N.of_nat p).
+Proof.
+  induction p as [|p IH]; intros n.
+  - rewrite Nat.add_0_r. cbn [N.of_nat]. rewrite N.pow_0_r, N.div_1_r.
+    rewrite <- (be_bytes_length k n) at 1. apply firstn_all.
+  - rewrite Nat.add_succ_r. cbn [be_bytes]. rewrite firstn_app, be_bytes_length.
+    replace (k - (k + p))%nat with 0%nat by lia. cbn [firstn]. rewrite app_nil_r, IH.
+    rewrite Nat2N.inj_succ, N.pow_succ_r', N.div_div by lia. reflexivity.
+Qed.
+
+(* decoding the padded digits of m * 256^p gives back the k = 4 - p bytes of m:
+   v' (the word read back) lies in [m * 256^p, (m + 1) * 256^p) *)
+Lemma tail_bytes t p v' :
+  is_bytes t = true -> (length t + p = 4)%nat ->
+  be_val t * 256 ^ N.of_nat p <= v' < (be_val t + 1) * 256 ^ N.of_nat p ->
+  firstn (length t) (be_bytes 4 v') = t.
+Proof.
+  intros B L [Lo Hi]. rewrite <- L, firstn_be_bytes.
+  assert (P : 256 ^ N.of_nat p <> 0) by (apply N.pow_nonzero; lia).
+  assert (D : v' / 256 ^ N.of_nat p = be_val t).
+  { symmetry. apply (N.div_unique _ _ _ (v' - be_val t * 256 ^ N.of_nat p)); lia. }
+  rewrite D. apply be_bytes_val. exact B.
+Qed.
+
+Ltac byte_hyps B :=
+  unfold is_bytes in B; cbn [forallb] in B;
+  repeat match goal with H : _ && _ = true |- _ => apply andb_true_iff in H; destruct H end;
+  repeat match goal with H : (_ <? 256) = true |- _ => apply N.ltb_lt in H end.
+
+Lemma pad_bounds v q1 q2 q3 q4 r1 r2 r3 r4 :
+  v = 85 * q1 + r1 -> q1 = 85 * q2 + r2 -> q2 = 85 * q3 + r3 -> q3 = 85 * q4 + r4 ->
+  r1 < 85 -> r2 < 85 -> r3 < 85 -> r4 < 85 ->
+  (v <= ((((0 * 85 + q4) * 85 + r4) * 85 + 84) * 85 + 84) * 85 + 84 < v + 614125)
+  /\ (v <= ((((0 * 85 + q4) * 85 + r4) * 85 + r3) * 85 + 84) * 85 + 84 < v + 7225)
+  /\ (v <= ((((0 * 85 + q4) * 85 + r4) * 85 + r3) * 85 + r2) * 85 + 84 < v + 85).
+Proof. intros. lia. Qed.
+
+Lemma pad_bounds_div v :
+  let q1 := v / 85 in let q2 := q1 / 85 in let q3 := q2 / 85 in let q4 := q3 / 85 in
+  (v <= ((((0 * 85 + q4) * 85 + q3 mod 85) * 85 + 84) * 85 + 84) * 85 + 84 < v + 614125)
+  /\ (v <= ((((0 * 85 + q4) * 85 + q3 mod 85) * 85 + q2 mod 85) * 85 + 84) * 85 + 84 < v + 7225)
+  /\ (v <= ((((0 * 85 + q4) * 85 + q3 mod 85) * 85 + q2 mod 85) * 85 + q1 mod 85) * 85 + 84 < v + 85).
+Proof.
+  intros q1 q2 q3 q4.
+  apply (pad_bounds v q1 q2 q3 q4 (v mod 85) (q1 mod 85) (q2 mod 85) (q3 mod 85));
+    first [apply N.div_mod; discriminate | apply N.mod_lt; discriminate].
+Qed.
+
+Ltac divmods v :=
+  pose proof (N.div_mod v 85 ltac:(lia));
+  pose proof (N.div_mod (v / 85) 85 ltac:(lia));
+  pose proof (N.div_mod (v / 85 / 85) 85 ltac:(lia));
+  pose proof (N.div_mod (v / 85 / 85 / 85) 85 ltac:(lia));
+  pose proof (N.mod_lt v 85 ltac:(lia));
+  pose proof (N.mod_lt (v / 85) 85 ltac:(lia));
+  pose proof (N.mod_lt (v / 85 / 85) 85 ltac:(lia));
+  pose proof (N.mod_lt (v / 85 / 85 / 85) 85 ltac:(lia)).
+
+Lemma b85_tail1 a : is_bytes [a] = true -> b85dec (b85enc [a]) = Some [a].
+Proof.
+  intros B. pose proof B as B0. byte_hyps B.
+  cbn [b85enc length Nat.sub repeat app]. unfold b85_digits. cbn [firstn].
+  cbn [b85dec length Nat.sub repeat app]. unfold b85_value. cbn [fold_left].
+  set (v := be_val [a; 0; 0; 0]).
+  assert (V : v = a * 16777216) by (unfold v, be_val; cbn [fold_left]; lia).
+  clearbody v.
+  set (v' := ((((0 * 85 + v / 85 / 85 / 85 / 85) * 85 + (v / 85 / 85 / 85) mod 85) * 85 + 84) * 85 + 84) * 85 + 84).
+  assert (R : v <= v' < v + 614125) by (exact (proj1 (pad_bounds_div v))).
+  change (2 ^ 32) with 4294967296.
+  destruct (v' <? 4294967296) eqn:Lt; [|apply N.ltb_ge in Lt; lia].
+  f_equal. apply (tail_bytes [a] 3 v' B0 eq_refl).
+  change (256 ^ N.of_nat 3) with 16777216. unfold be_val. cbn [fold_left]. lia.
+Qed.
+
+Lemma b85_tail2 a b : is_bytes [a; b] = true -> b85dec (b85enc [a; b]) = Some [a; b].
+Proof.
+  intros B. pose proof B as B0. byte_hyps B.
+  cbn [b85enc length Nat.sub repeat app]. unfold b85_digits. cbn [firstn].
+  cbn [b85dec length Nat.sub repeat app]. unfold b85_value. cbn [fold_left].
+  set (v := be_val [a; b; 0; 0]).
+  assert (V : v = (a * 256 + b) * 65536) by (unfold v, be_val; cbn [fold_left]; lia).
+  clearbody v.
+  set (v' := ((((0 * 85 + v / 85 / 85 / 85 / 85) * 85 + (v / 85 / 85 / 85) mod 85) * 85 + (v / 85 / 85) mod 85) * 85 + 84) * 85 + 84).
+  assert (R : v <= v' < v + 7225) by (exact (proj1 (proj2 (pad_bounds_div v)))).
+  change (2 ^ 32) with 4294967296.
+  destruct (v' <? 4294967296) eqn:Lt; [|apply N.ltb_ge in Lt; lia].
+  f_equal. apply (tail_bytes [a; b] 2 v' B0 eq_refl).
+  change (256 ^ N.of_nat 2) with 65536. unfold be_val. cbn [fold_left]. lia.
+Qed.
+
+Lemma b85_tail3 a b c : is_bytes [a; b; c] = true -> b85dec (b85enc [a; b; c]) = Some [a; b; c].
+Proof.
+  intros B. pose proof B as B0. byte_hyps B.
+  cbn [b85enc length Nat.sub repeat app]. unfold b85_digits. cbn [firstn].
+  cbn [b85dec length Nat.sub repeat app]. unfold b85_value. cbn [fold_left].
+  set (v := be_val [a; b; c; 0]).
+  assert (V : v = ((a * 256 + b) * 256 + c) * 256) by (unfold v, be_val; cbn [fold_left]; lia).
+  clearbody v.
+  set (v' := ((((0 * 85 + v / 85 / 85 / 85 / 85) * 85 + (v / 85 / 85 / 85) mod 85) * 85 + (v / 85 / 85) mod 85) * 85 + (v / 85) mod 85) * 85 + 84).
+  assert (R : v <= v' < v + 85) by (exact (proj2 (proj2 (pad_bounds_div v)))).
+  change (2 ^ 32) with 4294967296.
+  destruct (v' <? 4294967296) eqn:Lt; [|apply N.ltb_ge in Lt; lia].
+  f_equal. apply (tail_bytes [a; b; c] 1 v' B0 eq_refl).
+  change (256 ^ N.of_nat 1) with 256. unfold be_val. cbn [fold_left]. lia.
+Qed.
+
+(* any length *)
+Theorem b85_round_trip_any n : forall b,
+  (length b <= 4 * n + 3)%nat -> is_bytes b = true -> b85dec (b85enc b) = Some b.
+Proof.
+  induction n as [|n IH]; intros b L B.
+  - destruct b as [|a [|b1 [|c [|d r]]]]; try (cbn [length] in L; lia);
+      [reflexivity|apply b85_tail1|apply b85_tail2|apply b85_tail3]; exact B.
+  - destruct b as [|a [|b1 [|c [|d r]]]];
+      [reflexivity|apply b85_tail1; exact B|apply b85_tail2; exact B|apply b85_tail3; exact B|].
+    assert (Lr : (length r <= 4 * n + 3)%nat) by (cbn [length] in L; lia).
+    change (a :: b1 :: c :: d :: r) with ([a; b1; c; d] ++ r) in B.
+    rewrite is_bytes_app in B. apply andb_true_iff in B. destruct B as [B4 Br].
+    change (b85enc (a :: b1 :: c :: d :: r)) with (b85_digits (be_val [a; b1; c; d]) ++ b85enc r).
+    rewrite (b85_group a b1 c d _ r B4 (IH r Lr Br)). reflexivity.
+Qed.
+
+Lemma forallb_firstn {A} (p : A -> bool) k l : forallb p l = true -> forallb p (firstn k l) = true.
+Proof.
+  revert k. induction l as [|x l IH]; intros k Hl; [destruct k; reflexivity|].
+  destruct k; [reflexivity|]. cbn [firstn forallb] in *. apply andb_true_iff in Hl. destruct Hl as [Hx Hl].
+  rewrite Hx, (IH k Hl). reflexivity.
+Qed.
+
+Lemma b85enc_tail_lt t :
+  (length t < 4)%nat -> is_bytes t = true -> forallb (fun d => d <? 85) (b85enc t) = true.
+Proof.
+  intros L B.
+  assert (G : forall p, (length t + p = 4)%nat ->
+              forallb (fun d => d <? 85) (firstn (5 - p) (b85_digits (be_val (t ++ repeat 0 p)))) = true).
+  { intros p E. apply forallb_firstn, b85_digits_lt.
+    assert (Bp : is_bytes (t ++ repeat 0 p) = true).
+    { rewrite is_bytes_app, B. cbn [andb]. unfold is_bytes. apply forallb_forall. intros x Hx.
+      apply repeat_spec in Hx. subst x. reflexivity. }
+    pose proof (be_val_lt _ Bp) as Lv. rewrite app_length, repeat_length, E in Lv. exact Lv. }
+  destruct t as [|a [|b1 [|c [|d r]]]]; [reflexivity| | | |cbn [length] in L; lia].
+  - exact (G 3%nat eq_refl).
+  - exact (G 2%nat eq_refl).
+  - exact (G 1%nat eq_refl).
+Qed.
+
+Lemma b85enc_digits_lt_any n : forall b,
+  (length b <= 4 * n + 3)%nat -> is_bytes b = true -> forallb (fun d => d <? 85) (b85enc b) = true.
+Proof.
+  induction n as [|n IH]; intros b L B.
+  - apply b85enc_tail_lt; [lia|exact B].
+  - destruct b as [|a [|b1 [|c [|d r]]]]; try (apply b85enc_tail_lt; [cbn [length]; lia|exact B]).
+    assert (Lr : (length r <= 4 * n + 3)%nat) by (cbn [length] in L; lia).
+    change (a :: b1 :: c :: d :: r) with ([a; b1; c; d] ++ r) in B.
+    rewrite is_bytes_app in B. apply andb_true_iff in B. destruct B as [B4 Br].
+    change (b85enc (a :: b1 :: c :: d :: r)) with (b85_digits (be_val [a; b1; c; d]) ++ b85enc r).
+    rewrite forallb_app, (IH r Lr Br), andb_true_r. apply b85_digits_lt.
+    pose proof (be_val_lt _ B4) as L4. exact L4.
+Qed.
+
 (* ---------- characters ---------- *)
 Fixpoint mapM {A B : Type} (f : A -> option B) (l : list A) : option (list B) :=
   match l with
@@ -189,4 +351,15 @@ Theorem b85_round_trip alphabet n b :
 Proof.
   intros A L B. unfold b85_decode, b85_encode.
   rewrite (chars_round_trip _ _ A (b85enc_digits_lt n b L B)). apply (b85_round_trip_words n); assumption.
+Qed.
+
+(* ... and for byte strings of any length (a last group of 1-3 bytes is padded) *)
+Theorem b85_round_trip_all alphabet b :
+  alphabet_ok alphabet = true -> is_bytes b = true ->
+  b85_decode alphabet (b85_encode alphabet b) = Some b.
+Proof.
+  intros A B. unfold b85_decode, b85_encode.
+  assert (L : (length b <= 4 * length b + 3)%nat) by lia.
+  rewrite (chars_round_trip _ _ A (b85enc_digits_lt_any (length b) b L B)).
+  apply (b85_round_trip_any (length b)); assumption.
 Qed.
